@@ -42,6 +42,7 @@
 extern "C" {
 #endif
 extern bool   mi_is_in_heap_region(const void* p);
+extern bool   mi_check_owned(const void* p);
 extern size_t mi_usable_size(const void* p);
 extern int    mi_version(void);
 #ifdef __cplusplus
@@ -53,23 +54,40 @@ typedef bool   (*probe_in_heap_t)(const void*);
 typedef size_t (*probe_usable_t)(const void*);
 typedef int    (*probe_version_t)(void);
 
-static probe_in_heap_t P_in_heap;
+static probe_in_heap_t P_region;     /* mi_is_in_heap_region */
+static probe_in_heap_t P_owned;      /* mi_check_owned: walks the pages of the calling thread's default heap */
 static probe_usable_t  P_usable;
 static probe_version_t P_version;
 
 static long n_fail = 0, n_pairs = 0;
 
+/* "this pointer is mimalloc's".  mi_is_in_heap_region answers from the arenas and the segment map; the
+   segment map only covers addresses below MI_SEGMENT_MAP_MAX_ADDRESS (48 TiB), so a live block in a segment
+   the kernel placed higher (alignment > 32 MiB, size > 1 GiB: no address hint) is reported as foreign.  Such
+   blocks are still found by mi_check_owned; the disagreement is recorded as an observation. */
+static long n_region_miss = 0;
+static bool P_in_heap(const void* p) {
+  if (P_region(p)) return true;
+  if (p != NULL && P_owned != NULL && P_owned(p)) {
+    if (n_region_miss++ == 0) printf("T info mi_is_in_heap_region(%p)=0 for a live block that mi_check_owned finds\n", p);
+    return true;
+  }
+  return false;
+}
+
 static int probes_init(void) {
 #ifdef STATIC_OVERRIDE
-  P_in_heap = (probe_in_heap_t)&mi_is_in_heap_region;
+  P_region = (probe_in_heap_t)&mi_is_in_heap_region;
+  P_owned  = (probe_in_heap_t)&mi_check_owned;
   P_usable  = (probe_usable_t)&mi_usable_size;
   P_version = (probe_version_t)&mi_version;
 #else
-  P_in_heap = (probe_in_heap_t)dlsym(RTLD_DEFAULT, "mi_is_in_heap_region");
+  P_region = (probe_in_heap_t)dlsym(RTLD_DEFAULT, "mi_is_in_heap_region");
+  P_owned  = (probe_in_heap_t)dlsym(RTLD_DEFAULT, "mi_check_owned");
   P_usable  = (probe_usable_t)dlsym(RTLD_DEFAULT, "mi_usable_size");
   P_version = (probe_version_t)dlsym(RTLD_DEFAULT, "mi_version");
 #endif
-  if (!P_in_heap || !P_usable || !P_version) {
+  if (!P_region || !P_usable || !P_version) {
     printf("T code probes ok=0 got=missing want=mi_is_in_heap_region+mi_usable_size+mi_version\n");
     return 0;
   }
